@@ -38,7 +38,7 @@ def generate(ctx):
              "delay": delay, "delayed": (rng.random() < 0.5) if (delay and name in tr.HAS_DELAYED_FLAG) else False,
              "reduction": rng.choice(["sum", "sum", "mean", "amax"]), "reward": rng.choice(["scalar+", "scalar-", "tensor", "tensor"]),
              "scale": rng.choice([1.0, 0.5, 2.0, -0.5, -1.5]), "p": rng.choice([0.3, 0.5, 0.8]), "seed": rng.randrange(1 << 30),
-             "reassign_delays": bool(delay) and rng.random() < 0.4, "per_cell": rng.random() < 0.4,
+             "reassign_delays": bool(delay) and rng.random() < 0.4, "per_cell": rng.random() < 0.4, "online": rng.random() < 0.3,
              "lr_a3": rng.choice([0.3, -0.3, 1.5, -1.5]), "lr_b3": rng.choice([0.2, -0.2, 1.2, -1.2]),
              "clear_at": rng.choice([None, None, 3, 5]), "keepshape": rng.random() < 0.6,
              "inplace": rng.random() < 0.5, "interp_tolerance": rng.choice([0.0, 1e-3]), "update_every": rng.choice([1, 1, 2, 3])}
@@ -101,10 +101,13 @@ def run_trainer_history(ctx, desc, prop, pre_seq, post_seq, rewards, extra_check
     try:
         h = tr.Harness(name, conn_kind, dt=desc.get("dt", 1.0), B=desc.get("B", 1), delay_steps=desc.get("delay"),
                        seed=desc.get("seed", 0), batch_reduction=RED[red], hyper=hyper, dtype=torch.float64,
-                       max_delay_steps=(3 if desc.get("delay") else None), per_cell=desc.get("per_cell", False))
+                       max_delay_steps=(3 if desc.get("delay") else None), per_cell=desc.get("per_cell", False),
+                       online=bool(desc.get("online")))
     except Exception as e:  # noqa: BLE001
         ctx.violation(ctx.exc_signature(e, f"construct.{name}"), f"{type(e).__name__}: {str(e)[:160]}", desc)
         return False
+    if h.online:
+        ctx.count("cases_with_the_trainer_stepped_from_a_layer_forward_hook")
     if desc.get("per_cell"):
         ctx.count("per_cell_override_cases")
     orc = tr.Oracle(name, conn_kind, h.conn, h.dt, hyper, red)
